@@ -903,6 +903,8 @@ class PathController:
                     # the incremental solver gives up on mixed integer/real constraints more easily than a fresh one
                     vals = self._enumerate_fresh(v)
                     if vals is None:
+                        vals = self._enumerate_by_interval(v)
+                    if vals is None:
                         s.pop()
                         raise Unsupported('cannot enumerate values of a symbolic integer (solver: unknown)')
                 break
@@ -946,6 +948,61 @@ class PathController:
             return val
         except Exception:
             return None
+
+    def _ival(self, n, depth=0):
+        """interval of a node from the recorded bounds of its variables (None if unknown); only the operators of index arithmetic"""
+        if depth > 40: return None
+        op = n.op
+        if op in ('const', 'iconst'): return (Fraction(n.args[0]), Fraction(n.args[0]))
+        if op == 'var':
+            b = self.ivl.get(n.args[0])
+            if b is None or b[0] is None or b[2] is None: return None
+            return (Fraction(b[0]), Fraction(b[2]))
+        if op == 'ivar':
+            lo = getattr(n, 'lo', None); hi = getattr(n, 'hi', None)
+            return None if lo is None or hi is None else (Fraction(lo), Fraction(hi))
+        if op in ('irew', 'i2r', 'r2i'):
+            return self._ival(n.args[0], depth + 1)
+        if op in ('floor', 'ceil'):
+            r = self._ival(n.args[0], depth + 1)
+            if r is None: return None
+            import math
+            f = math.floor if op == 'floor' else math.ceil
+            return (Fraction(f(r[0])), Fraction(f(r[1])))
+        if op in ('add', 'iadd', 'sub', 'isub', 'mul', 'imul', 'div'):
+            a = self._ival(n.args[0], depth + 1); b = self._ival(n.args[1], depth + 1)
+            if a is None or b is None: return None
+            if op in ('add', 'iadd'): return (a[0] + b[0], a[1] + b[1])
+            if op in ('sub', 'isub'): return (a[0] - b[1], a[1] - b[0])
+            if op in ('mul', 'imul'):
+                c = [a[0] * b[0], a[0] * b[1], a[1] * b[0], a[1] * b[1]]
+                return (min(c), max(c))
+            if b[0] <= 0 <= b[1]: return None
+            c = [a[0] / b[0], a[0] / b[1], a[1] / b[0], a[1] / b[1]]
+            return (min(c), max(c))
+        if op == 'neg':
+            a = self._ival(n.args[0], depth + 1)
+            return None if a is None else (-a[1], -a[0])
+        if op == 'imod' and n.args[1].op == 'iconst':
+            a = self._ival(n.args[0], depth + 1)
+            if a is not None and a[0] >= 0 and a[1] < n.args[1].args[0]: return a
+            return None
+        return None
+
+    def _enumerate_by_interval(self, v):
+        """candidates from interval arithmetic, each kept unless the staged feasibility check refutes it (an undecided candidate is kept:
+        exploring an infeasible value is harmless, dropping a feasible one would not be)"""
+        r = self._ival(v)
+        if r is None: return None
+        import math
+        lo = math.floor(r[0]); hi = math.ceil(r[1])
+        if hi - lo > self.concretize_limit: return None
+        vals = []
+        for c in range(lo, hi + 1):
+            if c < 0: continue
+            res = self._check(S.cmp('eq', v, S.iconst(c, v.width)))
+            if res != z3.unsat: vals.append(c)
+        return vals
 
     def _enumerate_fresh(self, v):
         s2 = z3.Solver()
